@@ -103,9 +103,11 @@ fn c01(tier: Tier) -> Vec<Space> {
         line_short(p, if tier == Tier::Quick { 5 } else { 7 }),
         line_mut1(p),
         line_field_edit(p),
+        line_field_short(p, if tier == Tier::Quick { 3 } else { 4 }),
         line_grammar(p, tier == Tier::Thorough),
         line_cksum(p),
         line_typechar(p),
+        line_typechar_group(p),
         asmprops::chain(p),
         asmprops::hist_space(p, if tier == Tier::Quick { 4 } else { 5 }),
         asmprops::split2(p),
@@ -128,9 +130,11 @@ fn c18(tier: Tier) -> Vec<Space> {
         line_seeds(p),
         line_mut1(p),
         line_field_edit(p),
+        line_field_short(p, if tier == Tier::Quick { 3 } else { 4 }),
         line_grammar(p, tier == Tier::Thorough),
         line_cksum(p),
         line_typechar(p),
+        line_typechar_group(p),
         asmprops::chain(p),
         asmprops::hist_space(p, if tier == Tier::Quick { 4 } else { 5 }),
         asmprops::split2(p),
